@@ -1,5 +1,6 @@
 ---- MODULE MC_t_long ----
 EXTENDS MCOFWire
 TheCases == Longest(0)
+TheRCases == {}
 TheAround == AroundOne
 ====
